@@ -2361,6 +2361,8 @@ def gen_c20(r, tier="quick"):
             peers = [{"mode": "scripted", "entry": 0, "cls": "slsqp-0", "success": True, "status": 0,
                       "message": "Optimization terminated successfully", "x": r.choice(pts["cviol"]), "xkind": "cviol"}]
     fault = gen_fault(r, lp=lp_target)
+    if fault["site"] == "compile" and "of" in fault and ops[-1][0] == "solve":
+        ops.pop()  # cold: a warm-up solve would have left that callable in the problem's cache
     if sc["deep"] and r.random() < 0.5:
         fault["exc"] = "KeyboardInterrupt"  # the class that only `finally` (not `except Exception`) handles
     if peers and peers[0]["cls"] == "slsqp-0":
